@@ -90,7 +90,7 @@ func Presence(s *schema.Struct, f *schema.Field, v reflect.Value) (present, leni
 		a, b := fv.Float(), dv.Float()
 		if math.Float64bits(a) == math.Float64bits(b) {
 			if a != a {
-				return true, true // NaN default: NaN != NaN, either answer is defensible
+				return true, true // NaN default: NaN != NaN under ==, either answer is defensible
 			}
 			return false, false
 		}
@@ -112,8 +112,9 @@ type EncodeOpts struct {
 	// Order, when non-nil, is called with the number of fields to write in a
 	// struct and returns a permutation (field order on the wire).
 	Order func(n int) []int
-	// LenientPresence decides fields whose presence is lenient (default: absent).
-	LenientPresent bool
+	// Omit, when non-nil, drops the fields it returns true for (any
+	// requiredness): used to synthesise messages from writers that omit fields.
+	Omit func(s *schema.Struct, f *schema.Field) bool
 }
 
 func Encode(s *schema.Struct, v reflect.Value) []byte {
@@ -127,9 +128,9 @@ func EncodeWith(s *schema.Struct, v reflect.Value, o *EncodeOpts) []byte {
 func appendStruct(b []byte, s *schema.Struct, v reflect.Value, o *EncodeOpts) []byte {
 	var idx []int
 	for i, f := range s.Fields {
-		p, len := Presence(s, f, v)
-		if len && o != nil {
-			p = o.LenientPresent
+		p, _ := Presence(s, f, v)
+		if p && o != nil && o.Omit != nil && o.Omit(s, f) {
+			p = false
 		}
 		if p {
 			idx = append(idx, i)
